@@ -22,6 +22,7 @@ import (
 	"math/rand"
 	"os"
 	"sort"
+	"strings"
 	"syscall"
 
 	"github.com/idena-network/idena-go/blockchain/attachments"
@@ -46,7 +47,7 @@ type Op struct {
 	Amt  string `json:"amt"`
 	Gas  string `json:"gas"`
 	Who  string `json:"who"`
-	Pair bool   `json:"pair"`
+	Pair string `json:"pair"` // "no" | "same" | "term"
 	Good bool   `json:"good"`
 }
 
@@ -87,6 +88,7 @@ func loadCodes() {
 	get("sum", testdata.SumFunc)
 	get("erc20", testdata.Erc20)
 	get("testcases", testdata.TestCases)
+	get("sft", testdata.SharedFungibleToken)
 }
 
 var embeddedHash = map[string]common.Hash{
@@ -335,6 +337,11 @@ func (x *Exec) validArgs(s *State, kind, m string, v int) [][]byte {
 		return [][]byte{w.Addrs[kOther].Bytes(), pick(big.NewInt(500).Bytes(), big.NewInt(1).Bytes(), overAmount.Bytes())}
 	case "erc20.transferFrom":
 		return [][]byte{w.Addrs[s.I.Deployer].Bytes(), w.Addrs[kR1].Bytes(), pick(big.NewInt(100).Bytes(), big.NewInt(1).Bytes(), overAmount.Bytes())}
+	case "sft.deploy":
+		// (owner, root): a wallet owned by its deployer; variant 2: root = the deployer as well
+		return [][]byte{w.Addrs[x.sender(s, Op{Who: "owner"})].Bytes(), pick(w.Addrs[kSetup].Bytes(), w.Addrs[x.sender(s, Op{Who: "owner"})].Bytes(), w.Addrs[kSetup].Bytes())}
+	case "sft.transferTo":
+		return [][]byte{w.Addrs[kR1].Bytes(), pick(big.NewInt(100).Bytes(), big.NewInt(1).Bytes(), overAmount.Bytes())}
 	case "testcases.test":
 		return [][]byte{pick(u32(1), u32(1), u32(7)), pick(codes["sum"], codes["inc"], codes["inc"])}
 	}
@@ -521,6 +528,7 @@ type rcJ struct {
 	Success bool   `json:"success"`
 	GasUsed uint64 `json:"gasUsed"`
 	GasCost []int  `json:"gasCost"`
+	Oog     bool   `json:"oog"` // failed for lack of gas
 }
 
 type reqJ struct {
@@ -534,6 +542,8 @@ type shJ struct {
 	Writes [][2]string `json:"writes"`
 	Keep   []string    `json:"keep"`
 	Moved  []int       `json:"moved"`
+	Req    []reqJ      `json:"req"`
+	Dest   string      `json:"dest"`
 	Err    string      `json:"err"`
 }
 
@@ -544,6 +554,11 @@ type effJ struct {
 	Deployed []string `json:"deployed"`
 	Commits  int      `json:"commits"`
 	Sh       shJ      `json:"sh"`
+}
+
+// isOutOfGas recognises the error texts of the two VMs for "the bought gas is used up".
+func isOutOfGas(e string) bool {
+	return e == "not enough gas" || strings.Contains(e, "Out of gas") || strings.Contains(e, "out of gas")
 }
 
 func kindOf(t types.TxType) string {
@@ -565,7 +580,7 @@ func nz(x []int) []int {
 
 func (x *Exec) effOf(c *sim.TxCapture, sh sim.ShadowResult) effJ {
 	e := effJ{Req: []reqJ{}, Burnt: nz(sim.Limbs(c.Burnt)), Term: nz(sim.Limbs(c.Term)), Deployed: []string{}, Commits: c.Commit,
-		Sh: shJ{Writes: [][2]string{}, Keep: []string{}, Moved: []int{}}}
+		Sh: shJ{Writes: [][2]string{}, Keep: []string{}, Moved: []int{}, Req: []reqJ{}}}
 	for a, v := range c.Requested() {
 		e.Req = append(e.Req, reqJ{A: x.W.Name(a), V: nz(sim.Limbs(v))})
 	}
@@ -582,6 +597,13 @@ func (x *Exec) effOf(c *sim.TxCapture, sh sim.ShadowResult) effJ {
 			e.Sh.Keep = sh.Keep
 		}
 		e.Sh.Moved = nz(sim.Limbs(sh.Moved))
+		for a, v := range sh.Req {
+			e.Sh.Req = append(e.Sh.Req, reqJ{A: x.W.Name(a), V: nz(sim.Limbs(v))})
+		}
+		sort.Slice(e.Sh.Req, func(i, j int) bool { return e.Sh.Req[i].A < e.Sh.Req[j].A })
+		if sh.Dest != nil {
+			e.Sh.Dest = x.W.Name(*sh.Dest)
+		}
 	}
 	return e
 }
@@ -593,6 +615,11 @@ func (x *Exec) run(s *State, kind string, op Op, caseID int, step int) {
 	switch op.M {
 	case "wait":
 		x.emptyBlocks(n, 4)
+		s.Last = nil
+		return
+	case "longwait":
+		// an oracle voting can be terminated votingDuration + publicVotingDuration + 7 days of blocks after its start
+		x.emptyBlocks(n, 30400)
 		s.Last = nil
 		return
 	case "fund":
@@ -627,14 +654,29 @@ func (x *Exec) run(s *State, kind string, op Op, caseID int, step int) {
 	}
 
 	var txs []*types.Transaction
-	if op.Pair {
+	switch op.Pair {
+	case "same":
 		first := op
 		first.Gas = "small"
 		spec := x.buildTx(s, kind, first, from, nonce)
 		txs = append(txs, x.priceTx(n, spec, x.gasFor("small", need)))
 		nonce++
+	case "term":
+		first := Op{M: "terminate", Arg: "valid", Amt: "zero", Gas: "small", Who: op.Who}
+		pt := x.buildTx(s, kind, first, from, nonce)
+		pt.MaxFee = sim.Dna(2000, 1)
+		var needT uint64
+		if rc := n.DryRun(x.W.Tx(*pt), 3000000); rc != nil {
+			needT = rc.GasUsed
+		}
+		spec := x.buildTx(s, kind, first, from, nonce)
+		txs = append(txs, x.priceTx(n, spec, x.gasFor("small", needT)))
+		nonce++
 	}
 	spec := x.buildTx(s, kind, op, from, nonce)
+	if x.Rnd.Intn(5) == 0 {
+		spec.Tips = sim.Dna(3, 10)
+	}
 	txs = append(txs, x.priceTx(n, spec, x.gasFor(op.Gas, need)))
 
 	accepted := txs[:0]
@@ -680,7 +722,7 @@ func (x *Exec) run(s *State, kind string, op Op, caseID int, step int) {
 		panic(err)
 	}
 	var lines []tr.M
-	prevOk := true
+	undetermined := false
 	for i, tx := range mined {
 		c := rec.Txs[i]
 		rc := n.Chain.GetReceipt(tx.Hash())
@@ -688,12 +730,12 @@ func (x *Exec) run(s *State, kind string, op Op, caseID int, step int) {
 			panic("no receipt for a mined contract transaction")
 		}
 		sender, _ := types.Sender(tx)
-		var sh sim.ShadowResult
-		if i == 0 || !prevOk {
-			// (after a successful first transaction the committed pre-state is not what the second one saw)
-			sh = sim.RunShadow(ro, blk.Header, tx, n.Cfg.Consensus.EnableUpgrade10)
+		// the recording environment answers reads from the committed pre-state: that is what the second
+		// transaction of a block sees iff the first one failed (a failed run leaves no trace)
+		sh := sim.RunShadow(ro, blk.Header, tx, n.Cfg.Consensus.EnableUpgrade10)
+		if i < len(mined)-1 && rc.Success {
+			undetermined = true
 		}
-		prevOk = !rc.Success
 		isWasm := false
 		if tx.Type == types.DeployContractTx {
 			if att := attachments.ParseDeployContractAttachment(tx); att != nil && len(att.Code) > 0 {
@@ -721,7 +763,7 @@ func (x *Exec) run(s *State, kind string, op Op, caseID int, step int) {
 			}
 		}
 		line := tr.M{"ev": "Tx", "id": caseID, "step": step, "c": kind, "op": op, "tx": t,
-			"rc": rcJ{Success: rc.Success, GasUsed: rc.GasUsed, GasCost: nz(sim.Limbs(rc.GasCost))},
+			"rc": rcJ{Success: rc.Success, GasUsed: rc.GasUsed, GasCost: nz(sim.Limbs(rc.GasCost)), Oog: !rc.Success && isOutOfGas(errText)},
 			"eff": x.effOf(c, sh), "mid": i < len(mined)-1, "st": []acctJ{}, "err": errText, "need": need, "method": rc.Method}
 		lines = append(lines, line)
 		if rc.Success {
@@ -744,6 +786,12 @@ func (x *Exec) run(s *State, kind string, op Op, caseID int, step int) {
 				x.Stats["good_ok"]++
 			}
 		}
+	}
+	if undetermined {
+		// the first attempt (too little gas) succeeded nevertheless: no observation of the state in between
+		x.Stats["pair_first_succeeded"]++
+		s.Last = nil
+		return
 	}
 	post := x.snapshot(s)
 	lines[len(lines)-1]["st"] = post
@@ -770,7 +818,7 @@ func (x *Exec) mustRun(s *State, kind string, op Op) {
 }
 
 func def(m, amt, who string) Op {
-	return Op{M: m, Arg: "valid", Amt: amt, Gas: "enough", Who: who}
+	return Op{M: m, Arg: "valid", Amt: amt, Gas: "enough", Who: who, Pair: "no"}
 }
 
 func (x *Exec) preset(base *State, name string) *State {
